@@ -83,3 +83,10 @@ Definition period_iter_protocol_M {L : Type} (r : outcome (nat * list (Z * L))) 
   | Ret (_, _) => Raise OtherError
   | Raise e => Raise e
   end.
+
+(* ---- pandas IntervalIndex (KEPT FINDING) ----
+   IntervalIndex.get_loc answers a label carried by one interval with a numpy.int64 — an integer, but no built-in int — so
+   `isinstance(position, int)` fails in solve() / solve_period() and a perfectly good label is rejected with KeyError.
+   (Index, RangeIndex, DatetimeIndex, CategoricalIndex, MultiIndex and PeriodIndex answer with a built-in int.) *)
+Definition locate_interval (span : list Z) (x : Z) : locres :=
+  match count_of x span with O => LFail | _ => LOther end.
